@@ -73,6 +73,24 @@ def main(tier):
     if r.coverage.get("Evaluate", (0, 0))[0] == 0:
         raise V.ToolError("vacuous MC_Expr run")
     tcases = V.read_ndjson(out)
+    nexh = len(tcases)
+    # deeper trees (depth D+1 operators) than the exhaustive domain, sampled by TLC simulation of MC_ExprSim
+    import json
+    rs = V.tlc_must_pass(os.path.join(SPEC, "MC_ExprSim.tla"), cfg=os.path.join(SPEC, "MC_ExprSim.cfg"), workers=1, simulate=(400 if tier == "thorough" else 12),
+                         depth=5, seed_arg=V.rng("C03-sim").randrange(1 << 30), timeout=900, tag="C03-sim")
+    seen = set()
+    for line in rs.prints("CASE"):
+        body = line[line.index(",") + 1:].strip()
+        body = body[:body.rindex(">>")].strip()
+        if body in seen:
+            continue
+        seen.add(body)
+        tcases.append(json.loads(json.loads(body)))
+    if tier != "thorough" and len(tcases) - nexh > 8000:
+        tcases = tcases[:nexh] + V.rng("C03-pick").sample(tcases[nexh:], 8000)
+    if len(tcases) - nexh < 100:
+        raise V.ToolError("MC_ExprSim produced only %d trees" % (len(tcases) - nexh))
+    rep.cov["simulated_deep_trees"] = len(tcases) - nexh
     cases, meta = [], {}
     for i, c in enumerate(tcases, 1):
         text = render_tokens(c["toks"], rnd)
@@ -100,7 +118,7 @@ def main(tier):
     rep.cov["distinct_nontrivial"] = len({m["expr"] + m["dir"] + m["enc"] for m in meta.values() if m["tree"]["k"] in ("bin", "fac")})
     rep.cov["rule"] = ("TLC enumerates: all leaves x {,!,-,!-}; all binary operators over all leaf pairs; flagged operands; all depth-2 trees "
                        "(both nestings, 16x16 operator pairs) over %d leaves; string expressions x 4 encodings. distinct = distinct (expression text, directive) "
-                       "with at least one operator" % (4 if tier == "thorough" else 3))
+                       "with at least one operator; plus depth-3 trees sampled by TLC simulation (MC_ExprSim), not exhaustive" % (4 if tier == "thorough" else 3))
     rep.cov["exhaustive"] = True
     for i in (1, len(cases) // 3, len(cases) // 2, len(cases) - 1):
         rep.sample({"program": meta[i]["src"], "ok": omap[i]["ok"], "bytes": recs[i - 1]["bytes"]})
